@@ -1,22 +1,25 @@
-import SamVerif.Lemmas.EnumLayout
+import SamVerif.Lemmas.EnumSpec
 import SamVerif.Lemmas.TailRec
 /-!
 # C01 — compiled code behaves as the source semantics prescribe: property theorems
 
-K1 (enum variant representation, `mir_generics_specialization.rs:580-667`, encoding l.313-361,
-tests l.98-260):
-* `encode_injective_partial`, `testVariant_exact_partial` — for every declaration, every decision
-  function and all values: encoding is injective and the lowered match's tests recover exactly the
-  variant and its fields, *provided* the payload of an unboxed variant is a heap object of its type
-  (`FitsVal.payload`);
-* `typePermit_sound_finished` — the real decision guarantees that proviso for every finished type;
-* `typePermit_unsound_in_progress_counterexample`, `layout_injective_counterexample`,
-  `decode_counterexample` — it does not for a type still in progress: `Nat(Z, S(Nat))` (finding C01-F1).
+K1 (enum variant representation, `mir_generics_specialization.rs`: rewrite_id_type, the enum branch,
+type_permit_enum_boxed_optimization, EnumInit encoding, ConditionalDestructure tests):
+* `layout_injective` (full strength) — in every state reachable by the demand-driven specialisation,
+  for every enum definition produced, well-typed values with equal encodings are equal;
+* `lowered_tests_exact` (full strength) — there, the lowered match's test for a variant succeeds on
+  an encoded value iff it is that variant, and binds exactly its fields (decode ∘ encode = id);
+* `encode_injective_of_inv`, `testVariant_exact_of_inv` — the same for any layout satisfying the
+  loop invariant, given that unboxed payloads are heap objects; `ptr_of_hasTy`.
+  History: before fix e715c2f (`/repo`) an enum still in progress was taken for a pointer type;
+  `class Nat(Z, S(Nat))` got `[Int31, Unboxed Nat]`, `S(Z)` and `Z` were both `i31 0` (finding
+  C01-F1, witness corpus/C01/f1-nat.json). The check then carried `layout_injective_counterexample`
+  and `_partial` versions; the model now follows the fixed code (`enumsStarted`).
 
-K3 (tail recursion → loop, `mir_tail_recursion_rewrite.rs`, loop update `wasm_lowering.rs:437-441`):
-* `tailrec_equiv_par` (full strength, parallel update), `tailrec_equiv_seq_partial` (the code as
-  run; side condition `safeArgs`), `tailrec_equiv_seq_counterexample` (swap; finding C01-F2),
-  `seqAssign_eq_par_partial`.
+K3 (tail recursion → loop, `mir_tail_recursion_rewrite.rs`; loop update `wasm_lowering.rs:437-441`):
+* `tailrec_equiv_seq` (full strength, the loop as the backends run it), `tailrec_equiv_par`,
+  `seqAssign_eq_par_partial` / `_counterexample` (why the snapshot of fix c57720b is needed),
+  `swap_regression`. History: before fix c57720b (finding C01-F2) `swap(1, 2, 1)` gave 22.
 
 K4 (constant-parameter elimination decision, `mir_constant_param_elimination.rs`):
 * `meet_comm`, `meet_assoc`, `meet_idem`, `paramState_c32_sound`, `paramState_unused_sound`,
@@ -39,20 +42,19 @@ theorem single_of_head {α} (fs : List α) (v : α) (ts : List Ty) (t : Ty)
   match fs, hl, hh with
   | [x], _, hh => simpa using hh
 
-theorem encode_injective_partial (p : Ty → Bool) (variants : List (List Ty)) (n : Nat)
+theorem encode_injective_of_inv (P : Nat → Prop) (variants : List (List Ty)) (l : LState)
+    (inv : LInv P variants l) (n : Nat)
     (t1 t2 : Nat) (fs1 fs2 : List RtVal) (v : RtVal)
-    (h1 : FitsVal variants (layoutOf p variants) t1 fs1)
-    (h2 : FitsVal variants (layoutOf p variants) t2 fs2)
-    (e1 : encode n (layoutOf p variants) t1 fs1 = some v)
-    (e2 : encode n (layoutOf p variants) t2 fs2 = some v) :
+    (h1 : FitsVal variants l.out t1 fs1)
+    (h2 : FitsVal variants l.out t2 fs2)
+    (e1 : encode n l.out t1 fs1 = some v)
+    (e2 : encode n l.out t2 fs2 = some v) :
     t1 = t2 ∧ fs1 = fs2 := by
-  have inv := layoutOf_inv p variants
   obtain ⟨len, i31, unb, box, pend, perm⟩ := inv
   obtain ⟨⟨ts1, hv1, ha1⟩, hp1⟩ := h1
   obtain ⟨⟨ts2, hv2, ha2⟩, hp2⟩ := h2
-  unfold layoutOf at *
   unfold encode at e1 e2
-  generalize hrs : (layoutLoop p variants 0 {}).out = rs at *
+  generalize hrs : l.out = rs at *
   cases hr1 : rs[t1]? with
   | none => simp [hr1] at e1
   | some r1 =>
@@ -126,18 +128,17 @@ theorem encode_injective_partial (p : Ty → Bool) (variants : List (List Ty)) (
 
 /-- `decodeByTests ∘ encode = id`, pointwise: on an encoded value the test sequence of the lowered
 match succeeds for exactly the variant it was built from, and binds exactly its fields. -/
-theorem testVariant_exact_partial (p : Ty → Bool) (variants : List (List Ty)) (n : Nat)
+theorem testVariant_exact_of_inv (P : Nat → Prop) (variants : List (List Ty)) (l : LState)
+    (inv : LInv P variants l) (n : Nat)
     (tag tag' : Nat) (fs : List RtVal) (v : RtVal)
-    (h : FitsVal variants (layoutOf p variants) tag fs)
-    (e : encode n (layoutOf p variants) tag fs = some v) (ht : tag' < variants.length) :
-    testVariant n (layoutOf p variants) tag' v = if tag' = tag then some fs else none := by
-  have inv := layoutOf_inv p variants
+    (h : FitsVal variants l.out tag fs)
+    (e : encode n l.out tag fs = some v) (ht : tag' < variants.length) :
+    testVariant n l.out tag' v = if tag' = tag then some fs else none := by
   obtain ⟨len, i31, unb, box, pend, perm⟩ := inv
   obtain ⟨⟨ts, hv, ha⟩, hp⟩ := h
-  unfold layoutOf at *
   unfold encode at e
   unfold testVariant
-  generalize hrs : (layoutLoop p variants 0 {}).out = rs at *
+  generalize hrs : l.out = rs at *
   cases hr : rs[tag]? with
   | none => simp [hr] at e
   | some r =>
@@ -223,62 +224,85 @@ inductive HasTy (defs : List (Nat × MDef)) : Nat → RtVal → Prop where
       lookupDef defs n = some (.enum rs) → rs[tag]? = some (.unboxed t) → HasTy defs t w →
       HasTy defs n w
 
-/-- `type_permit_enum_boxed_optimization` is right about every *finished* type: if it permits
-unboxing a payload of type `n` whose definition is finished, every value of that type is a heap
-object of that type. (With `encode_injective_partial`: layouts chosen from finished payload types
-never conflate values.) -/
-theorem typePermit_sound_finished (st : St) (n : Nat) (v : RtVal)
-    (hp : typePermit st (.ref n) = true)
-    (hv : HasTy st.defs n v) : isPointerOf n v = true := by
+
+/-- Field values of a source-level enum value `(tag, fields)` have the declared types. -/
+structure WellTyped (defs : List (Nat × MDef)) (vs : List (List Ty)) (tag : Nat) (fs : List RtVal) : Prop where
+  arity : ∃ ts, vs[tag]? = some ts ∧ fs.length = ts.length
+  fields : ∀ (ts : List Ty) (i t : Nat) (w : RtVal), vs[tag]? = some ts → ts[i]? = some (.ref t) →
+    fs[i]? = some w → HasTy defs t w
+
+/-- Every value of a type the specialiser classified as "always a pointer" is a heap object. -/
+theorem ptr_of_hasTy {env : Env} {st : St} (g : GInv env st) {t : Nat} {w : RtVal}
+    (h : Ptr env st.defs t) (hv : HasTy st.defs t w) : isPointerOf t w = true := by
+  have notEnum : ∀ rs, lookupDef st.defs t = some (.enum rs) →
+      ((∃ fs, bodyOf env t = some (.struct fs)) ∨ (∃ sg, bodyOf env t = some (.closure sg))) → False := by
+    intro rs hl hb
+    obtain ⟨vs, l, hb', _⟩ := g.enums t rs hl
+    rcases hb with ⟨fs, h⟩ | ⟨sg, h⟩ <;> (rw [hb'] at h; cases h)
   match hv with
-  | .struct _ k fs h => simp [isPointerOf]
-  | .int31 _ rs tag h hr =>
-    simp only [typePermit, h] at hp
-    have := (List.all_eq_true.mp hp) _ (List.mem_of_getElem? hr)
-    simp [VRepr.isBoxed] at this
-  | .boxed _ rs tag ts fs h hr => simp [isPointerOf]
-  | .unboxed _ rs tag t w h hr hw =>
-    simp only [typePermit, h] at hp
-    have := (List.all_eq_true.mp hp) _ (List.mem_of_getElem? hr)
-    simp [VRepr.isBoxed] at this
+  | .struct _ k fs hl => simp [isPointerOf]
+  | .boxed _ rs tag ts fs hl hr => simp [isPointerOf]
+  | .int31 _ rs tag hl hr =>
+    rcases h with h | h | ⟨rs', h1, h2⟩
+    · exact (notEnum rs hl (Or.inl h)).elim
+    · exact (notEnum rs hl (Or.inr h)).elim
+    · rw [hl] at h1; cases h1
+      have := (List.all_eq_true.mp h2) _ (List.mem_of_getElem? hr)
+      simp [VRepr.isBoxed] at this
+  | .unboxed _ rs tag t' w' hl hr hw =>
+    rcases h with h | h | ⟨rs', h1, h2⟩
+    · exact (notEnum rs hl (Or.inl h)).elim
+    · exact (notEnum rs hl (Or.inr h)).elim
+    · rw [hl] at h1; cases h1
+      have := (List.all_eq_true.mp h2) _ (List.mem_of_getElem? hr)
+      simp [VRepr.isBoxed] at this
 
-/-- State in which `class Nat(Z, S(Nat))` (closed type 0) is laid out: its name is registered
-(l.573-574), its definition is not finished. -/
-def natInProgress : St := { names := [0] }
-def natLayout : List VRepr := layoutOf (typePermit natInProgress) [[], [.ref 0]]
-def natDefs : List (Nat × MDef) := [(0, .enum natLayout)]
+theorem fits_of_wellTyped {env : Env} {st : St} (g : GInv env st) {vs : List (List Ty)} {l : LState}
+    (li : LInv (Ptr env st.defs) vs l) {tag : Nat} {fs : List RtVal}
+    (h : WellTyped st.defs vs tag fs) : FitsVal vs l.out tag fs := by
+  refine ⟨h.arity, ?_⟩
+  intro t w hr hf
+  obtain ⟨hv, hp, _, _⟩ := li.unb tag t hr
+  subst hf
+  exact ptr_of_hasTy g hp (h.fields [.ref t] 0 t w hv rfl rfl)
 
-theorem nat_layout : natLayout = [.int31, .unboxed 0] := by decide
+/-- **layout_injective (full strength).** In every state the demand-driven specialisation reaches,
+for every enum definition it produced: two well-typed source values `(tag, fields)` with the same
+run-time encoding are the same value. (Before fix e715c2f this was false: `class Nat(Z, S(Nat))`
+was laid out `[Int31, Unboxed Nat]` because the in-progress `Nat` was taken for a pointer type, so
+`S(Z)` and `Z` were both `i31 0`; the check kept `layout_injective_counterexample` and a `_partial`
+theorem then.) -/
+theorem layout_injective (env : Env) (fuel : Nat) (roots : List Ty) (st : St)
+    (h : demandAll env fuel roots = some st) (n : Nat) (rs : List VRepr)
+    (hd : lookupDef st.defs n = some (.enum rs)) :
+    ∃ vs, bodyOf env n = some (.enum vs) ∧
+      ∀ (t1 t2 : Nat) (fs1 fs2 : List RtVal) (v : RtVal),
+        WellTyped st.defs vs t1 fs1 → WellTyped st.defs vs t2 fs2 →
+        encode n rs t1 fs1 = some v → encode n rs t2 fs2 = some v → t1 = t2 ∧ fs1 = fs2 := by
+  have g := demandAll_inv env fuel roots st h
+  obtain ⟨vs, l, hb, li, ho⟩ := g.enums n rs hd
+  refine ⟨vs, hb, ?_⟩
+  intro t1 t2 fs1 fs2 v w1 w2 e1 e2
+  subst ho
+  exact encode_injective_of_inv _ vs l li n t1 t2 fs1 fs2 v (fits_of_wellTyped g li w1)
+    (fits_of_wellTyped g li w2) e1 e2
 
-/-- The decision is wrong for a type that is still in progress: it answers "always a pointer" for
-`Nat` while `Z` is an `i31`. -/
-theorem typePermit_unsound_in_progress_counterexample :
-    typePermit natInProgress (.ref 0) = true ∧ HasTy natDefs 0 (.i31 0) ∧
-      isPointerOf 0 (.i31 0) = false := by
-  refine ⟨by decide, ?_, by decide⟩
-  exact HasTy.int31 0 natLayout 0 (by decide) (by decide)
-
-/-- Full-strength statement (false on the unchanged code):
-    `∀ variants st n t1 fs1 t2 fs2 v` with field values of the declared types,
-    `encode n (layoutOf (typePermit st) variants) t1 fs1 = some v →
-     encode n (layoutOf (typePermit st) variants) t2 fs2 = some v → t1 = t2 ∧ fs1 = fs2`.
-Witness: `Nat(Z, S(Nat))`: `S(Z)` and `Z` are both `i31 0` (P1; replayed: prints 0 instead of 2). -/
-theorem layout_injective_counterexample :
-    ∃ (st : St) (variants : List (List Ty)) (n t1 t2 : Nat) (fs1 fs2 : List RtVal) (v : RtVal),
-      let rs := layoutOf (typePermit st) variants
-      HasTy [(n, .enum rs)] n v ∧ (∀ w ∈ fs2, HasTy [(n, .enum rs)] n w) ∧
-      encode n rs t1 fs1 = some v ∧ encode n rs t2 fs2 = some v ∧ t1 ≠ t2 := by
-  refine ⟨natInProgress, [[], [.ref 0]], 0, 0, 1, [], [.i31 0], .i31 0, ?_, ?_, by rfl, by rfl, by decide⟩
-  · exact HasTy.int31 0 natLayout 0 (by decide) (by decide)
-  · intro w hw
-    simp at hw
-    subst hw
-    exact HasTy.int31 0 natLayout 0 (by decide) (by decide)
-
-/-- and the lowered `match` takes `S(Z)` for `Z`. -/
-theorem decode_counterexample :
-    decodeByTests 0 natLayout ((encode 0 natLayout 1 [.i31 0]).getD (.i32 0)) = some (0, []) := by
-  rfl
+/-- **decode ∘ encode = id (full strength)**, pointwise: in every reachable state, on the encoding
+of a well-typed value the lowered match's test for variant `tag'` succeeds iff `tag' = tag`, and
+binds exactly the fields. -/
+theorem lowered_tests_exact (env : Env) (fuel : Nat) (roots : List Ty) (st : St)
+    (h : demandAll env fuel roots = some st) (n : Nat) (rs : List VRepr)
+    (hd : lookupDef st.defs n = some (.enum rs)) :
+    ∃ vs, bodyOf env n = some (.enum vs) ∧
+      ∀ (tag tag' : Nat) (fs : List RtVal) (v : RtVal), WellTyped st.defs vs tag fs →
+        encode n rs tag fs = some v → tag' < vs.length →
+        testVariant n rs tag' v = if tag' = tag then some fs else none := by
+  have g := demandAll_inv env fuel roots st h
+  obtain ⟨vs, l, hb, li, ho⟩ := g.enums n rs hd
+  refine ⟨vs, hb, ?_⟩
+  intro tag tag' fs v w e ht
+  subst ho
+  exact testVariant_exact_of_inv _ vs l li n tag tag' fs v (fits_of_wellTyped g li w) e ht
 
 
 end SamVerif.C01
@@ -287,7 +311,9 @@ namespace SamVerif.C01
 open SamVerif.TailRec
 open SamVerif.Opt (Op evalTarget)
 
-/-- Sequential loop-variable update equals the parallel one under the side condition. -/
+
+/-- Sequential loop-variable update equals the parallel one when no loop value reads a parameter
+already overwritten (the reason the snapshot of fix c57720b is only needed for permuting calls). -/
 theorem seqAssign_eq_par_partial (params : List Name) (args : List Expr) (env : Env)
     (hnd : params.Nodup) (hl : args.length = params.length) (hs : noBackwardRef params args = true) :
     params.map (seqAssign env (params.zip args)) = args.map (Expr.eval env) :=
@@ -299,38 +325,36 @@ theorem seqAssign_eq_par_counterexample :
       params.map (seqAssign env (params.zip args)) ≠ args.map (Expr.eval env) :=
   ⟨[0, 1], [.var 1, .var 0], fun x => if x = 0 then 1 else 2, by decide, by decide, by decide⟩
 
-
-theorem walk_next_safe (ev : Op → Int → Int → Option Int) (params : List Name) (l : LBody) :
-    ∀ (env env' : Env) (args : List Expr), safeArgs params l = true →
-      walkLoop ev env l = some (.next env' args) →
-      noBackwardRef params args = true ∧ args.length = params.length := by
+theorem walk_next_arity (ev : Op → Int → Int → Option Int) (k : Nat) (l : LBody) :
+    ∀ (env env' : Env) (args : List Expr), arityOk k l = true →
+      walkLoop ev env l = some (.next env' args) → args.length = k := by
   induction l with
   | done a =>
     intro env env' args hs hw
     simp [walkLoop] at hw
-    simp [safeArgs] at hs
+    simp [arityOk] at hs
     obtain ⟨_, rfl⟩ := hw
     exact hs
-  | bin x op e1 e2 k ih =>
+  | bin x op e1 e2 b ih =>
     intro env env' args hs hw
     simp only [walkLoop] at hw
     split at hw
     · simp at hw
-    · exact ih _ _ _ (by simpa [safeArgs] using hs) hw
-  | sif c inv v k ih =>
+    · exact ih _ _ _ (by simpa [arityOk] using hs) hw
+  | sif c inv v b ih =>
     intro env env' args hs hw
     simp only [walkLoop] at hw
     split at hw
     · split at hw <;> simp at hw
-    · exact ih _ _ _ (by simpa [safeArgs] using hs) hw
+    · exact ih _ _ _ (by simpa [arityOk] using hs) hw
   | merge c t e _ _ =>
     intro env env' args hs hw
     simp only [walkLoop] at hw
     split at hw <;> simp at hw
 
-/-- **tailrec_equiv under parallel update (full strength).** With all loop values read before any
-loop variable is written, the rewritten loop computes what the recursion computes — for every tree,
-all arguments and every fuel. -/
+/-- **tailrec_equiv with parallel update.** With all loop values read before any loop variable is
+written, the rewritten loop computes what the recursion computes — for every operator semantics,
+tree, all arguments and every fuel. -/
 theorem tailrec_equiv_par (ev : Op → Int → Int → Option Int) (params : List Name) (b : Body) (l : LBody)
     (h : rw b = some l) :
     ∀ (fuel : Nat) (vals : List Int), runRec ev params b fuel vals = runLoop ev false params l fuel vals := by
@@ -351,11 +375,15 @@ theorem tailrec_equiv_par (ev : Op → Int → Int → Option Int) (params : Lis
     | vals vs => exact ih vs
     | exprs env' args => simpa using ih _
 
-/-- **tailrec_equiv for the code as the backends run it (partial).** Side condition: parameters
-are distinct and every loop-value list that is used directly (`safeArgs`) reads no parameter that an
-earlier loop-variable assignment has overwritten. -/
-theorem tailrec_equiv_seq_partial (ev : Op → Int → Int → Option Int) (params : List Name) (b : Body)
-    (l : LBody) (h : rw b = some l) (hnd : params.Nodup) (hs : safeArgs params l = true) :
+/-- **tailrec_equiv_seq (full strength)**: the rewritten function *as the backends run it* (loop
+variables assigned one after the other, `wasm_lowering.rs:437-441`) returns what the recursive
+function returns — for every operator semantics, every tree the rewrite accepts, all arguments, all
+fuel. Hypotheses are the MIR's own well-formedness: distinct parameter names and tail calls with
+one argument per parameter. (Before fix c57720b this was false — `swap(b, a, n - 1)` became
+`a = b; b = a` and `swap(1, 2, 1)` returned 22 — and the check carried
+`tailrec_equiv_seq_counterexample` plus a `_partial` theorem under `safeArgs`.) -/
+theorem tailrec_equiv_seq (ev : Op → Int → Int → Option Int) (params : List Name) (b : Body)
+    (l : LBody) (h : rw b = some l) (hnd : params.Nodup) (har : arityOk params.length l = true) :
     ∀ (fuel : Nat) (vals : List Int), runRec ev params b fuel vals = runLoop ev true params l fuel vals := by
   intro fuel
   induction fuel with
@@ -364,7 +392,7 @@ theorem tailrec_equiv_seq_partial (ev : Op → Int → Int → Option Int) (para
     intro vals
     simp only [runRec, runLoop]
     have r := walk_rel ev b l (bindParams params vals) h
-    have sf := walk_next_safe ev params l (bindParams params vals)
+    have sf := walk_next_arity ev params.length l (bindParams params vals)
     revert r sf
     generalize walkRec ev (bindParams params vals) b = a
     generalize walkLoop ev (bindParams params vals) l = c
@@ -374,10 +402,15 @@ theorem tailrec_equiv_seq_partial (ev : Op → Int → Int → Option Int) (para
     | value v => rfl
     | vals vs => exact ih vs
     | exprs env' args =>
-      obtain ⟨h1, h2⟩ := sf env' args hs rfl
-      simp only [if_true]
-      rw [seqAssign_eq_par params args env' hnd h2 h1]
-      exact ih _
+      have hlen := sf env' args har rfl
+      by_cases hro : readsOther params args = true
+      · simp only [hro, Bool.not_true, Bool.and_false, Bool.false_eq_true, if_false]
+        exact ih _
+      · have hro' : readsOther params args = false := by simpa using hro
+        simp only [hro', Bool.not_false, Bool.and_true, if_true]
+        have hnb := noBackwardRef_of_char params args ((readsOther_false_iff params args).mp hro')
+        rw [seqAssign_eq_par params args env' hnd hlen hnb]
+        exact ih _
 
 /-- `swap(a, b, n) = if n == 0 { a * 10 + b } else { swap(b, a, n - 1) }` -/
 def swapBody : Body :=
@@ -394,19 +427,11 @@ def swapLoop : LBody :=
 
 theorem swap_rw : rw swapBody = some swapLoop := by rfl
 
-/-- Full-strength statement (false on the unchanged code):
-    `∀ ev params b l, rw b = some l → params.Nodup → ∀ fuel vals,
-       runRec ev params b fuel vals = runLoop ev true params l fuel vals`.
-Witness: `swap(1, 2, 1)` is 21, the loop returns 22 (replayed on the real compiler: `swap(1, 2, 1001)`
-prints 22 on wasm and TS). -/
-theorem tailrec_equiv_seq_counterexample :
-    ∃ (params : List Name) (b : Body) (l : LBody) (fuel : Nat) (vals : List Int),
-      rw b = some l ∧ params.Nodup ∧
-      runRec evalTarget params b fuel vals = some 21 ∧
-      runLoop evalTarget true params l fuel vals = some 22 :=
-  ⟨[0, 1, 2], swapBody, swapLoop, 5, [1, 2, 1], by rfl, by decide, by decide, by decide⟩
-
-
+/-- Regression witness of C01-F2, now equal: recursion and loop both give 21. -/
+theorem swap_regression :
+    runRec evalTarget [0, 1, 2] swapBody 5 [1, 2, 1] = some 21 ∧
+    runLoop evalTarget true [0, 1, 2] swapLoop 5 [1, 2, 1] = some 21 := by
+  constructor <;> decide
 
 
 theorem meet_comm (a b : PState) : meet a b = meet b a := by
@@ -589,21 +614,32 @@ theorem mem_selfCallReads (params : List Name) : ∀ (args : List Arg) (x : Name
 /-! ## Non-vacuity -/
 section
 open SamVerif.EnumLayout
-
--- the side conditions are satisfiable and the theorems say something on real shapes:
--- `Opt<P>` with `P` a finished struct is laid out `[Int31, Unboxed P]` and is injective
-example : layoutOf (typePermit { names := [1, 0], defs := [(1, .struct 1)] }) [[], [.ref 1]]
-    = [.int31, .unboxed 1] := by decide
+-- `class Nat(Z, S(Nat))` (type 0) and `class P(val n: Nat)` (type 1), `Opt<P>` (type 2), `Opt<Opt<P>>` (3)
+def demoEnv : EnumLayout.Env :=
+  [ { targs := [], body := .enum [[], [.ref 0]] },
+    { targs := [], body := .struct [.ref 0] },
+    { targs := [.ref 1], body := .enum [[], [.ref 1]] },
+    { targs := [.ref 2], body := .enum [[], [.ref 2]] } ]
+-- the specialiser terminates on it and produces: Nat boxed (in progress when decided),
+-- Opt<P> unboxed (P finished struct), Opt<Opt<P>> boxed (payload has an Int31 variant)
+example : (demandAll demoEnv 20 [.ref 3]).map (fun st => st.defs) =
+    some [(3, .enum [.int31, .boxed [.int, .ref 2]]), (2, .enum [.int31, .unboxed 1]), (1, .struct 1),
+          (0, .enum [.int31, .boxed [.int, .ref 0]])] := by decide
 example : typePermit { names := [1, 0], defs := [(1, .struct 1)] } (.ref 1) = true := by decide
--- `Opt<Opt<P>>`: the payload has an Int31 variant, so it is boxed
-example : layoutOf (typePermit { names := [2, 1, 0], defs := [(1, .enum [.int31, .unboxed 0]), (0, .struct 1)] })
-    [[], [.ref 1]] = [.int31, .boxed [.int, .ref 1]] := by decide
-example : FitsVal [[], [.ref 1]] [.int31, .unboxed 1] 1 [.obj (.struct 1) [.i32 5]] :=
-  ⟨⟨[.ref 1], rfl, rfl⟩, by intro t w h1 h2; simp at h1 h2; subst h1; subst h2; rfl⟩
+-- the in-progress enum is no longer taken for a pointer type
+example : typePermit { names := [0], enumsStarted := [0] } (.ref 0) = false := by decide
+example : WellTyped [(1, .struct 1)] [[], [.ref 1]] 1 [.obj (.struct 1) [.i32 5]] :=
+  ⟨⟨[.ref 1], rfl, rfl⟩, by
+    intro ts i t w h1 h2 h3
+    simp at h1; subst h1
+    cases i with
+    | zero => simp at h2 h3; subst h2; subst h3; exact HasTy.struct 1 1 _ rfl
+    | succ k => simp at h2⟩
 end
--- an accumulator loop satisfies `safeArgs`; the swap does not
-example : safeArgs [0, 1, 2] (.done [.var 0, .var 2, .var 2]) = true := by decide
-example : safeArgs [0, 1, 2] swapLoop = false := by decide
+-- an accumulator loop and the swap both satisfy the hypotheses of `tailrec_equiv_seq`
+example : arityOk 3 swapLoop = true := by decide
+example : readsOther [0, 1, 2] [.var 1, .var 0, .var 13] = true := by decide
+example : readsOther [0, 1, 2] [.var 0, .var 12, .var 13] = false := by decide
 example : [0, 1, 2].Nodup := by decide
 example : runRec evalTarget [0, 1, 2] swapBody 5 [1, 2, 2] = some 12 := by decide
 -- rotation f(n, a, b) -> f(n - 1, b, a): both parameters are read (seeded fault C01: they must be kept)
